@@ -56,9 +56,12 @@ def grid_reads(f: Func, gname: str) -> List[ast.AST]:
     return bad
 
 
-def ray_loop(f: Func):
+RAY_SOURCES: Dict[str, str] = {}
+
+
+def ray_loop(node: ast.AST):
     """the `for ray in rays: light = True; for pos in ray: ...` nest of a ray-tracing function"""
-    for n in ast.walk(f.node):
+    for n in ast.walk(node):
         if isinstance(n, ast.For):
             inner = [s for s in n.body if isinstance(s, ast.For)]
             if len(inner) == 1 and isinstance(inner[0].iter, ast.Name) and \
@@ -70,22 +73,26 @@ def ray_loop(f: Func):
 def check_ray_function(index, rep, f: Func) -> Optional[ast.For]:
     name = f.name
     gname = f.node.args.args[0].arg
-    outer, inner = ray_loop(f)
+    from ..inline import inlined_function
+    node, inl = inlined_function(index, f)
+    outer, inner = ray_loop(node)
     if outer is None:
         rep.violation('C06.R2', VIS, name, f.node.lineno, name,
                       'no `for ray in rays: ... for pos in ray:` loop nest found')
         return None
-    w = walk_function(f.node)
+    w = walk_function(node)
     # rays come from the cached fan of the grid's area at the given position
     pname = f.node.args.args[1].arg
-    rays_def = w.single_def(src(outer.iter)) if isinstance(outer.iter, ast.Name) else None
-    ok = rays_def is not None and src(rays_def[1]) in (
+    rays_src = src(w.expand(outer.iter))
+    RAY_SOURCES[name] = rays_src
+    ok = rays_src in (
         f'cached_compute_rays_fancy({pname}, {gname}.area)',
         f'cached_compute_rays({pname}, {gname}.area)',
         f'compute_rays_fancy({pname}, {gname}.area)', f'compute_rays({pname}, {gname}.area)')
-    rep.check(bool(ok), 'C06.R4', VIS, name, outer.lineno, src(outer.iter),
+    rep.check(bool(ok), 'C06.R4', VIS, name, outer.lineno, rays_src,
               'the rays are not the fan from the agent position over the grid area',
               f'{name}: rays from the origin')
+    gname_in_loop = src(w.expand(ast.Name(gname, ast.Load())))
     # R4: each ray starts lit
     pre = [s for s in outer.body if s is not inner]
     lit = [s for s in pre if isinstance(s, ast.Assign) and len(s.targets) == 1
@@ -124,7 +131,7 @@ def check_ray_function(index, rep, f: Func) -> Optional[ast.For]:
         v = upd.value
         ok = isinstance(v, ast.BoolOp) and isinstance(v.op, ast.And) and len(v.values) == 2 \
             and src(v.values[0]) == light and \
-            src(v.values[1]) == f'not {gname}[{pos}].blocks_vision'
+            src(w.expand(v.values[1], stop=[pos])) == f'not {gname}[{pos}].blocks_vision'
         rep.check(ok, 'C06.R3', VIS, name, upd.lineno, src(upd),
                   f'light is updated by `{src(v)}`, not `light and not cell.blocks_vision` '
                   f'(light first: a dark ray never reads opacity; opacity only negated: '
@@ -138,8 +145,8 @@ def run(index: RepoIndex, rep) -> None:
     rep.rule('C06.R3', 'positive polarity: blocks_vision only negated; neighbour offsets in '
              '{-1,0,1} and grid-free', floor=5)
     rep.rule('C06.R4', 'the origin is visible; every ray starts lit', floor=6)
-    rep.rule('C06.R5', 'stochastic variant: same counting loop, strict threshold of a '
-             'half-open sample', floor=3)
+    rep.rule('C06.R5', 'stochastic variant: same rays and counting loop, strict threshold of '
+             'a half-open sample', floor=4)
     rep.rule('C06.R6', 'invisible cells are overwritten with Hidden (C05.R3)', floor=1)
     vis = index.registry('visibility', 4)
     mod = index.module(VIS)
@@ -278,26 +285,41 @@ def run(index: RepoIndex, rep) -> None:
             yield from alts(e.orelse, f_and(g, f_not(t)))
         else:
             yield e, g
+    import re
+
+    def unprefix(t: str) -> str:
+        """drop the prefixes the helper inliner gives to a helper's locals"""
+        return re.sub(r'_[A-Za-z_]+?\d+_(?=[A-Za-z_])', '', t)
+    from ..inline import inlined_function
+    w = walk_function(inlined_function(index, rt)[0])
+    rets = [e for e in w.events if e.kind == 'return' and e.value is not None]
     for r in rets:
         for ex, g in alts(w.expand(r.value), strip_iter(r.guard)):
-            seen.add((show(g), src(ex)))
+            seen.add((unprefix(show(g)), unprefix(src(ex))))
     want = {('absolute_counts', 'counts_num >= threshold'),
             ('not (absolute_counts)', 'counts_num / counts_den >= threshold')}
     rep.check(seen == want, 'C06.R2', VIS, 'raytracing', rt.node.lineno, str(sorted(seen)),
               'ray-traced visibility is not `lit count >= threshold` (monotone in the lit '
               'counts)', 'threshold on lit counts')
     # ---- R5 stochastic sibling
+    rs = {RAY_SOURCES.get('raytracing'), RAY_SOURCES.get('stochastic_raytracing')}
+    rep.check(len(rs) == 1 and None not in rs, 'C06.R5', VIS, 'stochastic_raytracing',
+              srt.node.lineno, ' vs '.join(str(x) for x in rs),
+              f'the stochastic variant traces {RAY_SOURCES.get("stochastic_raytracing")} but the '
+              f'deterministic one {RAY_SOURCES.get("raytracing")}: it could show cells the '
+              f'deterministic view cannot (or hide cells every ray reaches lit)',
+              'same rays as the deterministic variant')
     if l1 is not None and l2 is not None:
         rep.check(ast.dump(l1) == ast.dump(l2), 'C06.R5', VIS, 'stochastic_raytracing',
                   l2.lineno, 'for ray in rays: ...',
                   'the stochastic variant does not count lit rays with the same loop as '
                   'raytracing', 'same counting loop')
-    w = walk_function(srt.node)
+    w = walk_function(inlined_function(index, srt)[0])
     rets = [e for e in w.events if e.kind == 'return' and e.value is not None]
     okr = False
     got = ''
     if len(rets) == 1:
-        ex = w.expand(rets[0].value)
+        ex = ast.parse(unprefix(src(w.expand(rets[0].value))), mode='eval').body
         got = src(ex)
         if isinstance(ex, ast.Compare) and len(ex.ops) == 1:
             l, r_, op = ex.left, ex.comparators[0], ex.ops[0]
